@@ -16,5 +16,8 @@ pub use vector::{
     VectorSubscriber, VectorSubscriberBatchedStream, VectorSubscriberStream,
 };
 
+#[cfg(eyeball_verif)]
+pub use vector::verif_hooks;
+
 #[doc(no_inline)]
 pub use imbl::Vector;
